@@ -545,6 +545,21 @@ fn leaf_candidates(kind: Leaf, orig: &Value, c: &Consts, rng: &mut Rng) -> Vec<(
                            ("lower-case", "abcdef".to_string()), ("minus", "-1".to_string()), ("modulus p", "2523648240000001BA344D80000000086121000000000013A700000000000013".to_string())] {
                 add(&format!("point=coordinate {}", l), with_tok(pos + 1, &t));
             }
+            // coordinates lengthened to the limits of a BIG (70 hex digits = NLEN*BASEBITS bits fit, 71 spill into the
+            // unchecked top limb): both halves of one Fp2 component / one coordinate pair, and every coordinate
+            for (l, pad) in [("69 digits 7F..", "7FFFF"), ("70 digits 7F..", "7FFFFF"), ("70 digits F..", "FFFFFF"), ("71 digits 7F..", "7FFFFFF"),
+                             ("71 digits 80..", "8000000"), ("71 digits F..", "FFFFFFF"), ("71 digits 30..", "3000000"), ("72 digits 7F..", "7FFFFFFF")] {
+                let padded = |sel: &dyn Fn(usize) -> bool| -> Value {
+                    let mut x = toks.clone();
+                    for i in 0..ntok / 2 {
+                        if sel(i) && 2 * i + 1 < x.len() && x[2 * i + 1].len() == 64 { x[2 * i + 1] = format!("{}{}", pad, x[2 * i + 1]); }
+                    }
+                    json!(x.join(" "))
+                };
+                add(&format!("point=coordinates 0,1 lengthened to {}", l), padded(&|i| i < 2));
+                add(&format!("point=coordinates 0..3 lengthened to {}", l), padded(&|i| i < 4));
+                add(&format!("point=all coordinates lengthened to {}", l), padded(&|_| true));
+            }
             if !toks.is_empty() {
                 add("point=last token dropped", json!(toks[..toks.len() - 1].join(" ")));
                 add("point=last component dropped", json!(toks[..toks.len().saturating_sub(2)].join(" ")));
@@ -1528,7 +1543,7 @@ impl<'a> Runner<'a> {
         let w = self.w;
         let cd = w.cd();
         let pick_l = |rng: &mut Rng| *rng.pick(&[w.l, w.l, 0u32, 1, u32::MAX, u32::MAX - 1, 1 << 31, (1 << 31) - 1]);
-        match k % 7 {
+        match k % API_KINDS {
             0 => {
                 let (i, l) = (*rng.pick(&WILD_IDX), pick_l(rng));
                 let mut r = w.reg_at_issue.clone();
@@ -1584,6 +1599,43 @@ impl<'a> Runner<'a> {
                 });
                 format!("tails generator max_cred_num={}", l)
             }
+            7 => {
+                // a counterparty's sub-proof request against a holder (and a verifier) that declared common attributes:
+                // overlapping revealed / predicate / common names, names outside the schema, non-schema names
+                let pool = ["name", "age", "sex", "height", "master_secret", "nonexistent"];
+                let sub = k / API_KINDS;
+                let grid: [(&[&str], &[&str], &[&str]); 11] = [
+                    (&["age"], &["age"], &["age"]), (&["age"], &["age"], &["master_secret"]), (&["name", "age"], &["age"], &["name"]),
+                    (&[], &["age"], &["age"]), (&["age"], &[], &["age"]), (&["master_secret"], &[], &["master_secret"]),
+                    (&[], &["master_secret"], &["master_secret"]), (&["nonexistent"], &[], &["nonexistent"]), (&[], &["nonexistent"], &["nonexistent"]),
+                    (&["name"], &["name"], &["name"]), (&["age"], &["age", "age"], &["age", "name"])];
+                let (rv, pr, cm): (Vec<String>, Vec<String>, Vec<String>) = if sub < grid.len() {
+                    let g = grid[sub];
+                    (g.0.iter().map(|s| s.to_string()).collect(), g.1.iter().map(|s| s.to_string()).collect(), g.2.iter().map(|s| s.to_string()).collect())
+                } else {
+                    let mut pickn = |rng: &mut Rng| { let n = rng.below(3); (0..n).map(|_| rng.pick(&pool).to_string()).collect::<Vec<_>>() };
+                    (pickn(rng), pickn(rng), pickn(rng))
+                };
+                let spec = ReqSpec { revealed: rv.clone(), predicates: pr.iter().enumerate().map(|(n, a)| PredSpec { attr: a.clone(), ptype: ["GE", "LE", "GT", "LT"][n % 4].into(), value: 18 + n as i32 }).collect() };
+                let what = format!("request revealed={:?} predicates={:?} common={:?}", rv, pr, cm);
+                if let Ok(req) = spec.build() {
+                    let (reg, wit) = (Some(&w.reg_at_issue), Some(&w.witness));
+                    if let Ok(mut pb) = Prover::new_proof_builder() {
+                        for c in &cm { let _ = self.wd.call("ProofBuilder::add_common_attribute", || pb.add_common_attribute(c)); }
+                        let a = self.wd.call("ProofBuilder::add_sub_proof_request", || pb.add_sub_proof_request(&req, &cd.schema, &cd.non_schema, &w.sig, &w.all_vals, &cd.pk, reg, wit));
+                        if a.is_ok() {
+                            if let Some(proof) = self.wd.call("ProofBuilder::finalize", || pb.finalize(&w.nonce_nr)).ok() {
+                                if let Ok(mut pv) = Verifier::new_proof_verifier() {
+                                    for c in &cm { let _ = self.wd.call("ProofVerifier::add_common_attribute", || pv.add_common_attribute(c)); }
+                                    let a = self.wd.call("ProofVerifier::add_sub_proof_request", || pv.add_sub_proof_request(&req, &cd.schema, &cd.non_schema, &cd.pk, Some(&w.rc.key_pub), reg));
+                                    if a.is_ok() { let _ = self.wd.call("ProofVerifier::verify", || pv.verify(&proof, &w.nonce_nr)); }
+                                }
+                            }
+                        }
+                    }
+                }
+                what
+            }
             _ => {
                 let (i, l, bd) = (*rng.pick(&WILD_IDX), pick_l(rng), rng.chance(1, 3));
                 let mut r = w.reg_at_issue.clone();
@@ -1606,7 +1658,7 @@ enum Plan {
 }
 
 const RAW_KINDS: usize = 12;
-const API_KINDS: usize = 7;
+const API_KINDS: usize = 8;
 
 /// the fixed part of the stream: every single structural mutation of every honest document in
 /// JSON text form, the regression inputs of repaired defects on every scalar / point leaf, the
@@ -1636,7 +1688,8 @@ fn systematic(w: &World) -> Vec<Plan> {
                     let wanted: &[&str] = match kind {
                         Leaf::Scalar => &["scalar=empty string", "scalar=non-hex text", "scalar=over-long 72 hex digits", "scalar=over-long 100 hex digits", "scalar=0", "scalar=r", "scalar=non-ascii"],
                         Leaf::Point(_) => &["point=zero excess at *", "point=excess index i32::MAX+1", "point=excess index u32::MAX", "point=excess index i32::MAX", "point=excess index 2^30", "point=identity",
-                                             "point=coordinate 100 hex digits", "point=coordinate 1000 hex digits", "point=coordinate non-hex", "point=empty string"],
+                                             "point=coordinate 100 hex digits", "point=coordinate 1000 hex digits", "point=coordinate non-hex", "point=empty string",
+                                             "point=all coordinates lengthened to *", "point=coordinates 0,1 lengthened to 71*", "point=coordinates 0..3 lengthened to 71 digits 7F*"],
                         Leaf::BigNum => &["bn=0", "bn=-1", "bn=empty string", "bn=NUL inside"],
                         _ => &[],
                     };
@@ -1817,6 +1870,8 @@ fn batch(thorough: bool, rng: &mut Rng) -> Result<(), String> {
     for i in (1..sys.len()).rev() {
         sys.swap(i, srng.below(i as u64 + 1) as usize);
     }
+    // the request grid (a dozen fixed API cases) runs in every tier: keep it at the front
+    sys.sort_by_key(|p| !matches!(p, Plan::Api(k) if k % API_KINDS == 7));
     if part == 0 && start == 0 {
         eprintln!("c20: world built in {} ms, {} honest documents, {} systematic cases, {} cases requested", t0.elapsed().as_millis(), w.bases.len(), sys.len(), count);
     }
